@@ -311,13 +311,18 @@ SETTLE_TEXT = ["changed = False", "ast, this_changed = self.__transformer.transf
 
 
 def f_chain(fns, F):
-    if text(need(fns, "ChainTransformer.transform")) != CHAIN_TEXT or \
-            text(need(fns, "ChainTransformer.__init__")) != ["self.__transformers = transformers"]:
-        raise TranslateError("ChainTransformer: unrecognised text")
+    ct = text(need(fns, "ChainTransformer.transform"))
+    if text(need(fns, "ChainTransformer.__init__")) != ["self.__transformers = transformers"]:
+        raise TranslateError("ChainTransformer.__init__: unrecognised text")
+    if ct == CHAIN_TEXT:
+        F["chain_flag"] = "AnyChanged"
+    elif ct == ["changed = False", "for transformer in self.__transformers:\n    ast, changed = transformer.transform(ast)", "return (ast, changed)"]:
+        F["chain_flag"] = "LastOnly"
+    else:
+        raise TranslateError("ChainTransformer.transform: unrecognised text")
     if text(need(fns, "SettleTransformer.transform")) != SETTLE_TEXT or \
             text(need(fns, "SettleTransformer.__init__")) != ["self.__transformer = transform"]:
         raise TranslateError("SettleTransformer: unrecognised text")
-    F["chain_flag"] = "AnyChanged"
 
 
 def chains(fn, what, classes):
@@ -830,7 +835,8 @@ def translate(repo, _py=None):
         "Definition src_absorb_delete_o : del_order := %s." % F["absorb_delete_o"],
         "(* __is_contained_and: the matched operand of the container is deleted *)",
         "Definition src_contained_and_consumes : bool := %s." % F["contained_and_consumes"],
-        "(* the chains *)",
+        "(* the chains; ChainTransformer reports a change when ANY of its transformers does *)",
+        "Definition src_chain_flag : chain_flag_kind := %s." % F["chain_flag"],
         "Definition src_comp_simplify : list pass := %s." % coq_list(F["comp_simplify"]),
         "Definition src_obs_simplify : list pass := %s." % coq_list(F["obs_simplify"]),
         "Definition src_comp_normalize : list stage := %s." % coq_list(F["comp_normalize"]),
